@@ -246,7 +246,19 @@ fn validate_data(
             for (index, fields_schema) in constructors.iter() {
                 if let Ok(fields) = expect_data_constr(term, *index) {
                     if fields_schema.len() != fields.len() {
-                        panic!("fields length different");
+                        return Err(mismatch(
+                            term,
+                            Schema::Data(Data::AnyOf(vec![
+                                Constructor {
+                                    index: *index,
+                                    fields: fields_schema
+                                        .iter()
+                                        .map(|_| Declaration::Inline(Box::new(Data::Opaque)).into())
+                                        .collect(),
+                                }
+                                .into(),
+                            ])),
+                        ));
                     }
 
                     for (instance, schema) in iter::zip(fields, fields_schema) {
